@@ -137,7 +137,8 @@ def estimator_weights_ok(self, functions, weights):
     w, f = np.asarray(weights, dtype=float), np.asarray(functions, dtype=float)
     if np.any(np.isnan(w)):
         return True          # no positive weight survived: outside the contract (NaN in, NaN out)
-    ok = bool(np.all(w >= 0)) and abs(float(w.sum()) - 1.0) <= 1e-9 and bool(np.all(w[np.isnan(f)] == 0))
+    # (mixed-sign configured realization weights are valid: the weights an estimator receives sum to one, failed entries carry none)
+    ok = abs(float(w.sum()) - 1.0) <= 1e-9 and bool(np.all(w[np.isnan(f)] == 0))
     if not ok:
         BROKEN.append(f"estimator_weights: weights={w.tolist()} functions={f.tolist()}")
     return ok
